@@ -215,8 +215,14 @@ func e2eHarness(rc *RunCtx) {
 				simrt.Send(siteDone, doneC, i)
 			})
 		}
+		if env.otherEndpoint != nil {
+			env.otherEndpoint()
+		}
 		for i := 0; i < nCallers; i++ {
 			simrt.Recv(siteDone, doneC)
+		}
+		if env.otherEndpoint != nil {
+			env.otherEndpoint()
 		}
 		// a plain call at the end: the same client and server still work
 		p := g.plainPlan(len(plans))
@@ -301,6 +307,14 @@ func (g *e2eGen) headers(p *callPlan) {
 	p.cid = "cid-" + genString(tp, "hdr", 6)
 	p.timeout = []time.Duration{250 * time.Millisecond, time.Second, 3 * time.Second, 30 * time.Second, 1234 * time.Millisecond,
 		61001 * time.Millisecond, 2147483648 * time.Millisecond, 40 * 24 * time.Hour}[tp.Intn("hdr", 8)]
+	if k := tp.Intn("tmoany", 4); k == 3 {
+		// any whole number of milliseconds is a timeout (not only round ones)
+		p.timeout = time.Duration(1000+tp.Intn("tmoany", 200000)) * time.Millisecond
+	}
+	if len(p.reqHdr) > 0 && tp.Intn("bighdr", 12) == 11 {
+		// one header value larger than any read buffer on the way
+		p.reqHdr[sortedKeys(p.reqHdr)[0]] = strings.Repeat(genString(tp, "hdr", 6)+"v", 1000+tp.Intn("bighdr", 3000))
+	}
 	if len(p.respHdr) > 0 && tp.Intn("hdr", 3) == 0 {
 		// the caller's context already carries a response header of that name (a reused context, an onward call)
 		p.staleRespKey = sortedKeys(p.respHdr)[0]
